@@ -9,7 +9,7 @@ phrase_as_unix""".split()]
 RULE = ("timestamps {0, +-1, +-86399, +-86400, 2^31-1, 2^31, 2^32, first second of year 1, last second of year 9999, around every one of them; within 15 h of the first second of the current and the next year} + "
         "uniform random over years 1..9999 (negative included) x default zone in {UTC, EST, IST(+5:30), NPT(+5:45), GMT+14-like extremes, random "
         "configured zones} x explicit target zone / none x spellings ('N to date', 'N to ZONE', 'N ZONE', 'N date'); the printed date-time is "
-        "parsed and compared field by field with Python's datetime of N + 60*offset; '<date> as unix' for the dates of C09's generator; time and "
+        "parsed and compared field by field with Python's datetime of N + 60*offset; '<date> as unix' for the dates of C09's generator, plain and after the date was put into an explicit zone ('D to Z as unix', on one line and through a variable: still midnight UTC of D); time and "
         "date-time 'as unix' against the instant of the value itself; round trips N -> date-time -> N and date-time -> N -> date-time through "
         "variables; digits of the printed timestamp; '<date> at <time> as unix' written on one line; non-trivial = |N| >= 2^31, negative, or a "
         "non-UTC zone; distinct = distinct (default zone, text)")
@@ -113,8 +113,17 @@ def run(ctx, model_ok):
                               "kind": "round", "n": n, "zone": z})
             elif k < 0.85:
                 y, m, d = rng.randint(1, 9999), rng.randint(1, 12), rng.randint(1, 28)
-                cases.append({"text": f"{d}/{m}/{y} as unix" if rng.random() < 0.5 else f"{d} {MON[m-1].lower()} {y} {rng.choice(['as', 'to'])} unix",
-                              "kind": "date", "ymd": (y, m, d)})
+                dt = f"{d}/{m}/{y}" if rng.random() < 0.5 else f"{d} {MON[m-1].lower()} {y}"
+                kz = rng.random()
+                if kz < 0.6:
+                    cases.append({"text": f"{dt} {rng.choice(['as', 'to'])} unix", "kind": "date", "ymd": (y, m, d)})
+                else:
+                    # a date that was put into an explicit zone is still that calendar date: midnight UTC of it
+                    z = rng.choice(named + [rng.choice(zs)])
+                    if kz < 0.8:
+                        cases.append({"text": f"{dt} to {z[0]} as unix", "kind": "date", "ymd": (y, m, d), "zoned": z[0]})
+                    else:
+                        cases.append({"text": f"d = {dt} to {z[0]}\nd as unix", "kind": "date", "ymd": (y, m, d), "zoned": z[0], "line": 1})
             elif k < 0.93:
                 h, mi, s = rng.randint(0, 23), rng.randint(0, 59), rng.randint(0, 59)
                 z = rng.choice([None, None] + named)
@@ -197,11 +206,15 @@ def run(ctx, model_ok):
             elif c["kind"] == "date":
                 y, m, d = c["ymd"]
                 want = (datetime.date(y, m, d) - datetime.date(1970, 1, 1)).days * 86400
-                ctx.seen((dz, c["text"]), y < 1970 or y >= 2038)
+                ctx.seen((dz, c["text"]), y < 1970 or y >= 2038 or "zoned" in c)
+                if "zoned" in c:
+                    ctx.count("date-in-explicit-zone-as-unix")
+                li = c.get("line", 0)
+                v = val(ls[li]) if len(ls) > li else None
                 if v is None or v.get("t") != "N" or v.get("nt") != "Raw" or O.f64(v["v"]) != float(want):
                     bad = f"midnight UTC of {y}-{m}-{d} is {want}, evaluated to {v}"
-                elif ls[0].get("out") != str(want):
-                    bad = f"the printed timestamp {ls[0].get('out')!r} does not show every digit of {want}"
+                elif ls[li].get("out") != str(want):
+                    bad = f"the printed timestamp {ls[li].get('out')!r} does not show every digit of {want}"
             elif c["kind"] == "time":
                 ctx.seen((dz, c["text"]), dz is not None)
                 v1 = val(ls[1]) if len(ls) > 1 else None
